@@ -44,8 +44,8 @@ def bound(ctx, prog):
     rule = "R-C09-bound"
     f = prog.one(r"^router::routing::forward_device_data$")
     fs_calls = [(bb, t) for bb, t in f.calls() if callee_path(t).endswith("Outgoing::free_slots") and not f.is_cleanup(bb)]
-    if len(fs_calls) != 1:
-        raise AnchorMissing("forward_device_data: expected one Outgoing::free_slots() call, found %d" % len(fs_calls))
+    if not fs_calls:
+        raise AnchorMissing("forward_device_data: no Outgoing::free_slots() call")
     reads = [(bb, t) for bb, t in f.calls() if callee_path(t).endswith("DataLog::native_readv") and not f.is_cleanup(bb)]
     truncs = [(bb, t) for bb, t in f.calls() if callee_path(t).endswith("Vec::<T, A>::truncate") and not f.is_cleanup(bb)]
     ctx.floor(rule, "native_readv calls", len(reads), 1)
@@ -67,8 +67,11 @@ def bound(ctx, prog):
                 pass   # QoS 0 branch: configured batch size, no window involved
             else:
                 bad.append(s)
-        if has_free and not bad:
-            ctx.ok(rule, f.id, "%s derives from free_slots() %s" % (what, d), site=f.loc(t.get("sp")))
+        has_batch = any(s.kind in ("param", "field") and s.fields and s.fields[-1] == "max_outgoing_packet_count" for s in srcs)
+        if has_free and not bad and has_batch:
+            ctx.ok(rule, f.id, "%s derives from the subscription's window (free_slots() for QoS>0 / max_outgoing_packet_count for QoS 0) %s" % (what, d), site=f.loc(t.get("sp")))
+        elif has_free and not bad:
+            ctx.violation(rule, f.id, what, "the %s is free_slots() on every path: a QoS 0 subscription is no longer served with its own window (max_outgoing_packet_count) but with the free QoS>0 slots of the connection (leaves: %s)" % (what, d), site=f.loc(t.get("sp")))
         else:
             ctx.violation(rule, f.id, what, "the %s is not derived from Outgoing::free_slots() only (leaves: %s)" % (what, d), site=f.loc(t.get("sp")))
     # retained messages taken first are charged against the window before the log is read:
